@@ -75,7 +75,7 @@ namespace P
 open FxVerif.Model.C18P
 
 def baseEnv (trueConds : List String) (iters : Nat) : Env :=
-  { ok := fun _ _ => true, panics := fun _ _ => false, evm := fun _ _ => .ok, iters := fun _ => iters,
+  { ok := fun _ _ => true, panics := fun _ _ => false, evm := fun _ _ => .ok, iters := fun _ _ => iters, stride := 100,
     cond := fun t _ => trueConds.contains t }
 
 def failAt (e : Env) (name : String) (i : Nat) : Env :=
@@ -119,16 +119,55 @@ def att (hcat : String) (ok : Bool) : String :=
   let marks := (r.2.outer.flatMap m).foldl (fun acc x => if acc.contains x then acc else x :: acc) ["oracleHeight", "oracleNonce"]
   s!"flow={flowStr r.1} cats={showMarks marks}"
 
-/-- `pgov <n> <failIdx|-> <err|panic>` -/
+def govConds : List String := ["EndBlocker: passes", "EndBlocker: passes #2"]
+
+def statusOf (o : List Tok) (p : Nat) : String :=
+  let has1 (name : String) : Bool := o.any (fun t => t.name == name && t.iter == p)
+  if has1 "set proposal.Status = v1.StatusPassed" then "passed"
+  else if has1 "set proposal.Status = v1.StatusFailed" || has1 "set proposal.Status = v1.StatusFailed #2" then "failed"
+  else if has1 "set proposal.Status = v1.StatusRejected" then "rejected" else "?"
+
+/-- a block of proposals: `specs` = (number of messages, failing message index, panic?) per proposal, in the order
+in which `EndBlocker` walks them -/
+def govEnv (specs : List (Nat × Option Nat × Bool)) : Env :=
+  let e : Env := { baseEnv govConds 0 with iters := fun id p => if id == 1 then specs.length else (specs.getD p (0, none, false)).1 }
+  (List.range specs.length).foldl (fun e p =>
+    match specs.getD p (0, none, false) with
+    | (_, some i, true) => panicAt e "handler" (p * e.stride + i)
+    | (_, some i, false) => failAt e "handler" (p * e.stride + i)
+    | _ => e) e
+
+def paidOf (e : Env) (o : List Tok) (p n : Nat) : Nat :=
+  (o.filter (fun t => t.name == "handler" && p * e.stride ≤ t.iter && t.iter < p * e.stride + n)).length
+
+/-- `pgov <n> <failIdx|-> <err|panic>`: one proposal in the block -/
 def gov (n : Nat) (f : Option Nat) (kind : String) : String :=
-  let e := baseEnv [] n
-  let e := match f with
-    | none => e
-    | some i => if kind == "panic" then panicAt e "handler" i else failAt e "handler" i
+  let e := govEnv [(n, f, kind == "panic")]
   let r := run e govProg
-  let status := if has r.2.outer "set proposal.Status = v1.StatusPassed" then "passed"
-    else if has r.2.outer "set proposal.Status = v1.StatusFailed" || has r.2.outer "set proposal.Status = v1.StatusFailed #2" then "failed" else "?"
-  s!"flow={flowStr r.1} status={status} stored={b01 (has r.2.outer "keeper.SetProposal")} paid={count r.2.outer "handler"}"
+  s!"flow={flowStr r.1} status={statusOf r.2.outer 0} stored={b01 (has r.2.outer "keeper.SetProposal")} paid={paidOf e r.2.outer 0 n}"
+
+def parseSpec (w : String) : Option (Nat × Option Nat × Bool) :=
+  match w.splitOn ":" with
+  | [n, f, k] =>
+    match n.toNat?, (if f == "-" then some none else (f.toNat?).map some) with
+    | some n, some f => some (n, f, k == "panic")
+    | _, _ => none
+  | _ => none
+
+/-- `pgovb <n:f:kind> …`: several proposals whose voting period ends in the SAME block -/
+def govBlock (specs : List (Nat × Option Nat × Bool)) : String :=
+  let e := govEnv specs
+  let r := run e govProg
+  let per := (List.range specs.length).map (fun p =>
+    s!"{statusOf r.2.outer p}:{paidOf e r.2.outer p (specs.getD p (0, none, false)).1}")
+  s!"flow={flowStr r.1} " ++ " ".intercalate per
+
+/-- `pxc <ok|fail>`: the executeClaim precompile method around the keeper's ExecuteClaim -/
+def xc (ok : Bool) : String :=
+  let e := baseEnv ["Run: has"] 0
+  let e := if ok then e else failAt e "crosschainKeeper.ExecuteClaim" 0
+  let r := run e executeClaimPrecompileProg
+  s!"tx={if r.1 == .ret true then "ok" else "failed"} written={b01 (has r.2.outer "crosschainKeeper.ExecuteClaim")}"
 
 /-- `pbci <ntok> <unknown token idx|-> <convFail idx|-> <isContract> <memoSendCallTo> <call> <refund==receiver> <zero coins> <refund calls ok>` -/
 def bci (ntok : Nat) (pre conv : Option Nat) (isContract memoCall : Bool) (call : String) (same zero refundOk : Bool) : String :=
@@ -208,6 +247,11 @@ def step (st : Unit) (line : String) : Unit × String :=
     match n.toNat?, P.optNat f with
     | some n, some f => ((), P.gov n f kind)
     | _, _ => ((), "bad-op")
+  | "pgovb" :: specs =>
+    match specs.mapM P.parseSpec with
+    | some sp => ((), P.govBlock sp)
+    | none => ((), "bad-op")
+  | ["pxc", ok] => ((), P.xc (ok == "ok"))
   | ["pbci", ntok, pre, conv, isc, memo, call, same, zero, rok] =>
     match ntok.toNat?, P.optNat pre, P.optNat conv with
     | some n, some p, some c => ((), P.bci n p c (isc == "1") (memo == "1") call (same == "1") (zero == "1") (rok == "1"))
